@@ -41,13 +41,16 @@ def gen_case(rng, k, maxlen=16):
         if x < 0.45:
             o = rng.choice(PAIR); a = rng.randrange(3); b = rng.randrange(3)
             if o in ('mctor', 'massign', 'copy') and a == b: b = (a + 1) % 3
+            if rng.random() < 0.5: sel(a); lines.append('order')      # the source has its filtration-order cache populated when it is copied / moved
             lines.append('%s %d %d' % (o, a, b)); m.slot_op(o, [a, b])
             # both objects live on independently
             for j in rng.sample([a, b], 2):
                 if rng.random() < 0.7: mutate(j, rng.randrange(1, 3))
             if rng.random() < 0.3:
                 d = rng.choice([a, b]); lines.append('destroy %d' % d); m.slot_op('destroy', [d])
-            for j in sorted({a, b}): sel(j); lines.append('obs' if rng.random() < 0.5 else 'cplx')
+            for j in sorted({a, b}):
+                sel(j); lines.append('obs' if rng.random() < 0.5 else 'cplx')
+                if rng.random() < 0.6: lines.append('order')             # each object walks its own filtration order
         elif x < 0.6:
             sel(rng.randrange(3)); lines.append('ser')
         elif x < 0.8:
